@@ -126,7 +126,9 @@ func TestVerifGlobFS(t *testing.T) {
 		name := "t_" + strings.NewReplacer("/", "_", ".", "_").Replace(d)
 		os.WriteFile(filepath.Join(p, "BUILD.dawn"), []byte(fmt.Sprintf("@target(name=%q)\ndef _t():\n    pass\n", name)), 0644)
 	}
-	ipool := []string{"a", "a/*", "a/**", "*", "**", "b", "*/a", "vendor", "ve*", "?", "a?", "x.y", "a/b", "**/c", "*/*"}
+	ipool := []string{"a", "a/*", "a/**", "*", "**", "b", "*/a", "vendor", "ve*", "?", "a?", "x.y", "a/b", "**/c", "*/*",
+		// the separator is a character like any other: a pattern that ends in one matches no directory
+		"a/", "vendor/", "a/b/", "*/", "**/"}
 	try := func(pats []string) {
 		quoted := make([]string, len(pats))
 		for i, p := range pats {
